@@ -144,8 +144,11 @@ def outcome_eq(a, b):
         return ("exc", type(e).__name__)
 
 
-def ops_for(std, alias, other, values):
-    keys = [std] + ([alias] if alias else []) + [other]
+FOREIGN_ALIAS = {"STOPS": "FREEZES", "BGCHANGES": "ANIMATIONS", "NOTES": "NOTES2"}
+
+
+def ops_for(std, alias, other, values, extra_key=None):
+    keys = [std] + ([alias] if alias else []) + ([extra_key] if extra_key else []) + [other]
     ops = [("aget",), ("adel",)] + [("aset", v) for v in values]
     for k in keys:
         ops += [("kget", k), ("kdel", k), ("kin", k)] + [("kset", k, v) for v in values]
@@ -153,8 +156,12 @@ def ops_for(std, alias, other, values):
     return ops
 
 
-def initial_states(std, alias, other):
+def initial_states(std, alias, other, extra_key=None):
     out = [()]
+    if extra_key:
+        # a legacy alias of another class is an ordinary key here: it must be ignored by the attribute
+        out.append(((extra_key, "q"),))
+        out.append(((extra_key, "q"), (std, "p")))
     out.append(((std, "p"),))
     if alias:
         out.append(((alias, "q"),))
@@ -166,10 +173,13 @@ def initial_states(std, alias, other):
 
 def explore_property(acc, kind, attr, std, alias, values, layer, bare_start=False):
     other = KINDS[kind][1]
-    ops = ops_for(std, alias, other, values)
+    extra_key = FOREIGN_ALIAS.get(std) if not alias else None
+    if extra_key == other:
+        extra_key = None
+    ops = ops_for(std, alias, other, values, extra_key)
     seen = set()
     frontier = []
-    for st in initial_states(std, alias, other):
+    for st in initial_states(std, alias, other, extra_key):
         if st not in seen:
             seen.add(st)
             frontier.append((st, []))
@@ -188,6 +198,8 @@ def explore_property(acc, kind, attr, std, alias, values, layer, bare_start=Fals
                 fails, new_state = check_transition(kind, attr, std, alias, state, op, bare)
                 acc.count("transitions")
                 acc.count("evaluations")
+                if extra_key and any(k == extra_key for k, _ in state) and op[0] in ("aset", "adel", "aget"):
+                    acc.outcome("attribute access with another class's alias key present")
                 if any(k == alias for k, _ in state) and not any(k == std for k, _ in state) and op[0] in ("aset", "adel", "aget"):
                     acc.outcome("attribute access through the alias")
                 if any(k == alias for k, _ in state) and any(k == std for k, _ in state) and op[0] in ("aset", "adel", "aget"):
@@ -271,9 +283,18 @@ def check_transition(kind, attr, std, alias, state, op, bare=False):
 FIELDS = M.SM_FIELDS
 
 
+SCRATCH_ORDER = (5, 2, 0, 4, 1, 3)  # a non-documented assignment order for charts built from scratch
+
+
 def smchart_from(fields, how):
     if how == "from_msd":
         return SMChart.from_msd(list(fields))
+    if how == "scratch":
+        # SMChart() filled by attribute assignment in another order than the documented one
+        ch = SMChart()
+        for i in SCRATCH_ORDER:
+            setattr(ch, FIELDS[i].lower(), fields[i])
+        return ch
     ch = SMChart.blank()
     for k, v in zip(FIELDS, fields):
         dict.__setitem__(ch, k, v)
@@ -415,10 +436,17 @@ def check_smchart_transition(state, op, how):
     ch = smchart_from(state, how)
     got = smchart_apply_real(ch, op)
     keys, vals = smchart_state(ch)
+    if how == "scratch" and sorted(keys) == sorted(FIELDS):
+        keys = list(FIELDS)  # the key order of a chart filled from scratch is the caller's; only the key set is fixed
     if keys != list(FIELDS):
         fail("an SM chart no longer exposes exactly its six fixed fields in order (a key was added or removed)", list(FIELDS), keys)
         return fails, tuple(state)
     alts = smchart_expect(state, op)
+    if how == "scratch" and op[0] in ("iter", "items") and got[0] == "ok":
+        # order of iteration follows the caller's assignment order for a chart built from scratch
+        want_any = alts[0][1][1]
+        if sorted(map(repr, got[1])) == sorted(map(repr, want_any)):
+            got = ("ok", want_any)
     chosen = None
     for new_state, pred in alts:
         if tuple(vals) != tuple(new_state):
@@ -463,8 +491,11 @@ def check_smchart_state(state, how):
         return [{"clause": "serializing an SM chart raised", "expected": "text", "observed": f"{type(e).__name__}: {e}"}]
     if len(params) != 1 or params[0][0] != "NOTES" or [c.strip() for c in params[0][1:7]] != [s.strip() for s in state]:
         return [{"clause": "serialized SM chart does not show the fields in the documented order", "expected": list(state), "observed": core.jsonable(params)}]
-    other = smchart_from(state, "from_msd" if how != "from_msd" else "blank")
-    if not (ch == other) or (ch != other):
+    other = smchart_from(state, "from_msd" if how != "from_msd" else "scratch")
+    # '!=' is only demanded between charts with the same key order: SMChart overrides __eq__ but inherits
+    # OrderedDict's order-sensitive __ne__, which is outside what the property states (observation in DESIGN)
+    same_order = list(dict.keys(ch)) == list(dict.keys(other))
+    if not (ch == other) or (same_order and (ch != other)):
         return [{"clause": "SM charts with the same six fields do not compare equal", "expected": "equal", "observed": "not equal"}]
     return []
 
@@ -545,6 +576,7 @@ def explore(run):
     svals = ("p", "") if not run.thorough() else ("p", "q", "")
     shards.append(("smchart", svals, "from_msd", ["a", "b", "c", "d", "e", "f"]))
     shards.append(("smchart", ("p", ""), "blank", [dict.get(SMChart.blank(), k) for k in FIELDS]))
+    shards.append(("smchart", ("p", ""), "scratch", ["a", "b", "c", "d", "e", "f"]))
     k = run.seed % len(shards)
     shards = shards[k:] + shards[:k]
     run.merge(core.pmap(explore_shard, shards, run.seed))
@@ -562,6 +594,7 @@ def explore(run):
     ]
     core.require(acc.outcomes["attribute access through the alias"] > 0, "alias path not exercised")
     core.require(acc.outcomes["attribute access with both spellings present"] > 0, "both-spellings states not reached")
+    core.require(acc.outcomes["attribute access with another class's alias key present"] > 0, "foreign alias key never present")
     core.require(acc.outcomes["attempt to add a key to an SM chart"] > 0, "no add attempt")
     core.require(acc.outcomes["attempt to remove a key from an SM chart"] > 0, "no remove attempt")
     return run.finish(
